@@ -134,6 +134,16 @@ pub fn gen_table(rng: &mut Rng) -> (TableSpec, Vec<PatT>) {
             5 | 6 => match &ty { Ty::Int => Modifier::Default(E::Int(*rng.pick(&[0u64, 7, 100]))), Ty::Real => Modifier::Default(E::Real(2.5)), Ty::Text => Modifier::Default(E::Str(rng.pick(&["", "dflt"]).to_string())), Ty::Bool => Modifier::Default(E::Bool(true)), _ => Modifier::Default(E::Null) },
             _ => Modifier::None,
         };
+        // one column in six: several modifiers at once (the first through the SQL text, the others through the library API)
+        let modifier = if rng.chance(1, 6) {
+            let mut parts: Vec<Modifier> = if modifier == Modifier::None { vec![] } else { vec![modifier] };
+            let mut extra: Vec<Modifier> = vec![Modifier::NotNull, Modifier::Convert, Modifier::Microseconds];
+            if ty == Ty::Text { extra.push(Modifier::Trim); extra.push(Modifier::Trim); extra.push(Modifier::Default(E::Str(rng.pick(&["", " padded ", "dflt"]).to_string()))); }
+            if ty == Ty::Int { extra.push(Modifier::Default(E::Int(5))); }
+            if ty == Ty::Bool { extra.push(Modifier::Default(E::Bool(false))); }
+            for _ in 0..(1 + rng.below(2)) { let m = rng.pick(&extra).clone(); if !parts.iter().any(|p| std::mem::discriminant(p) == std::mem::discriminant(&m)) { parts.push(m); } }
+            if parts.len() >= 2 { Modifier::Combo(parts) } else { parts.pop().unwrap_or(Modifier::None) }
+        } else { modifier };
         spec.cols.push(ColSpec { name: format!("c{}", ci), ty, src, modifier });
     }
     (spec, pats)
@@ -162,7 +172,7 @@ pub fn gen_line(rng: &mut Rng, pats: &[PatT]) -> String {
 
 pub fn sig_column(col: &ColSpec, situation: &str, kind: &str) -> String {
     let parsing = match &col.src { Src::Group(..) => "group", Src::Multi(_) => "multi", Src::Inline(_) => "inline", Src::Json(_) => "json" };
-    let m = match &col.modifier { Modifier::None => "", Modifier::NotNull => "+notnull", Modifier::Trim => "+trim", Modifier::Convert => "+convert", Modifier::Microseconds => "+micro", Modifier::Default(_) => "+default" };
+    let m: String = col.modifier.parts().iter().map(|m| match m { Modifier::NotNull => "+notnull", Modifier::Trim => "+trim", Modifier::Convert => "+convert", Modifier::Microseconds => "+micro", Modifier::Default(_) => "+default", _ => "" }).collect();
     format!("extract|{} {}{}|{}|{}", parsing, col.ty.tag(), m, situation, kind)
 }
 
@@ -181,12 +191,12 @@ pub fn judge_row(spec: &TableSpec, accepts: &[Accept], observed: &Result<Option<
                     let kind = if row[ci].is_null() { "value-lost" } else if acc.vals.iter().all(|v| v.is_null()) { "value-for-no-value" } else { "value-differs" };
                     vs.push(Violation::new(sig_column(col, acc.situation, kind), format!("line {:?} column {} ({}): got {}, accepted {}", line, col.name, col.ty.sql(), row[ci].show(), acc.show())));
                 }
-                if col.modifier == Modifier::NotNull && row[ci].is_null() { vs.push(Violation::new(sig_column(col, acc.situation, "notnull-row-kept"), format!("line {:?}: NOT NULL column {} is NULL but the row was kept", line, col.name))); }
+                if col.not_null() && row[ci].is_null() { vs.push(Violation::new(sig_column(col, acc.situation, "notnull-row-kept"), format!("line {:?}: NOT NULL column {} is NULL but the row was kept", line, col.name))); }
             }
         }
         Ok(None) => {
             let all_may_be_null = accepts.iter().all(|a| a.may_be_null());
-            let notnull_may_fail = spec.cols.iter().zip(accepts.iter()).any(|(c, a)| c.modifier == Modifier::NotNull && a.may_be_null());
+            let notnull_may_fail = spec.cols.iter().zip(accepts.iter()).any(|(c, a)| c.not_null() && a.may_be_null());
             if !all_may_be_null && !notnull_may_fail {
                 let witness = spec.cols.iter().zip(accepts.iter()).find(|(_, a)| !a.may_be_null()).unwrap();
                 vs.push(Violation::new(sig_column(witness.0, witness.1.situation, "row-missing"), format!("line {:?}: no row, but column {} must be {}", line, witness.0.name, witness.1.show())));
@@ -199,9 +209,19 @@ pub fn judge_row(spec: &TableSpec, accepts: &[Accept], observed: &Result<Option<
 /// the engine's `SELECT *` row for each line (engine boundary), one engine per line so that an error on one line does not hide the rest
 pub fn observe_rows(tables_text: &str, lines: &[String]) -> Result<Vec<Result<Option<Vec<RV>>, eng::EngErr>>, eng::EngErr> {
     let tables = eng::tables_from(tables_text)?;
+    observe_rows_in(&tables, lines)
+}
+
+/// ... with modifiers that only the library API can set (`Modifier::Combo`) applied
+pub fn observe_rows_spec(spec: &TableSpec, lines: &[String]) -> Result<Vec<Result<Option<Vec<RV>>, eng::EngErr>>, eng::EngErr> {
+    let tables = eng::tables_from_specs(&[spec])?;
+    observe_rows_in(&tables, lines)
+}
+
+fn observe_rows_in(tables: &sqlgrep::data_model::Tables, lines: &[String]) -> Result<Vec<Result<Option<Vec<RV>>, eng::EngErr>>, eng::EngErr> {
     let stmt = eng::parse("SELECT * FROM t")?;
     Ok(lines.iter().map(|l| {
-        let (outs, err) = eng::exec_lines(&tables, &stmt, std::slice::from_ref(l), true, true);
+        let (outs, err) = eng::exec_lines(tables, &stmt, std::slice::from_ref(l), true, true);
         match err { Some(e) => Err(e), None => Ok(outs.into_iter().next().and_then(|o| o.out).and_then(|r| r.rows.into_iter().next())) }
     }).collect())
 }
@@ -209,7 +229,7 @@ pub fn observe_rows(tables_text: &str, lines: &[String]) -> Result<Vec<Result<Op
 impl Monitor for C01 {
     fn id(&self) -> &'static str { "C01" }
     fn rule(&self) -> &'static str {
-        "case = generated CREATE TABLE (1-3 capture/split patterns from a template grammar with optional groups, 1-7 columns: single group, inline pattern, multi-group arrays and timestamps, every type, one modifier) + 8 lines built constructively from type-aware pools (64-bit extremes, float spellings, month names, out-of-range date parts, padded text), duplicated instances (leftmost match), near misses and noise. Engine rows of SELECT * are compared column by column with the reference extraction (accept sets). Non-trivial = some pattern matched the line and a column's expectation came from a branch other than 'pattern unmatched'; distinct by (table, line) hash"
+        "case = generated CREATE TABLE (1-3 capture/split patterns from a template grammar with optional groups, 1-7 columns: single group, inline pattern, multi-group arrays and timestamps, every type, one modifier - or several through the library API) + 8 lines built constructively from type-aware pools (64-bit extremes, float spellings, month names, out-of-range date parts, padded text), duplicated instances (leftmost match), near misses and noise. Engine rows of SELECT * are compared column by column with the reference extraction (accept sets). Non-trivial = some pattern matched the line and a column's expectation came from a branch other than 'pattern unmatched'; distinct by (table, line) hash"
     }
     fn assumptions(&self) -> Vec<String> { vec!["the regex crate decides which text a group captured (the model calls Regex::captures / find_iter itself)".into(), "std's f64 parser gives the numeric value of a text the model's own grammar accepted".into(), "TZ=UTC".into()] }
     fn sizes(&self, tier: Tier) -> Sizes { match tier { Tier::Quick => Sizes { cases: 24_000, min_nontrivial: 20_000 }, Tier::Thorough => Sizes { cases: 1_000_000, min_nontrivial: 500_000 } } }
@@ -224,7 +244,7 @@ impl Monitor for C01 {
         let Some(spec) = TableSpec::from_json(&case["spec"]) else { return Verdict::Inconclusive("malformed-case".into()) };
         let lines: Vec<String> = case["lines"].as_array().map(|a| a.iter().filter_map(|x| x.as_str().map(|s| s.to_owned())).collect()).unwrap_or_default();
         let text = case["table"].as_str().unwrap_or("");
-        let observed = match observe_rows(text, &lines) {
+        let observed = match observe_rows_spec(&spec, &lines) {
             Ok(o) => o,
             Err(eng::EngErr::Panic(p)) => return Verdict::Violated(vec![Violation::new(format!("extract|definition|{}", p.sig()), p.describe())]),
             Err(eng::EngErr::Err(e)) => return Verdict::Violated(vec![Violation::new(format!("extract|definition-rejected|{}", e.chars().filter(|c| !c.is_ascii_digit()).take(40).collect::<String>()), format!("a definition in the documented syntax was rejected: {} :: {}", e, text))]),
